@@ -289,6 +289,10 @@ class ISD(model.Document):
       if cached_doc.get_body() is not None:
         compute_sig_times(interval_cache, content_interval, s_times, cached_doc.get_body(), 0, None)
 
+      if len(doc_regions) == 0 and doc.has_initial_value(styles.StyleProperties.BackgroundColor):
+        # the default region may show the document's initial background color at any time
+        content_interval = [None, 0]
+
       cache.append(_SingleRegionDocumentCache(
         interval_cache,
         cached_doc,
